@@ -210,11 +210,13 @@ def scripted(kind, md, model, args, xs, s, rng):
     tr, _ = model.generate(choices_dict(md, xs), *[jnp.float32(a) for a in args])
     rec, it = [], iter(noise)
     saved = (mcmc.normal, mcmc.uniform, mcmc.jnp)
-    def scripted_sample(*a, sample_shape=(), **k):
+    def scripted_sample(loc=0.0, scale=1.0, sample_shape=(), **k):
+        # the scripted standard-normal quantiles, placed at the requested location / scale
         cnt = int(np.prod(sample_shape)) if sample_shape else 1
-        return jnp.asarray([next(it) for _ in range(cnt)], dtype=jnp.float32).reshape(sample_shape)
+        z = jnp.asarray([next(it) for _ in range(cnt)], dtype=jnp.float32).reshape(sample_shape)
+        return jnp.float32(loc) + jnp.float32(scale) * z
     mcmc.normal = types.SimpleNamespace(sample=scripted_sample, logpdf=normal.logpdf)
-    mcmc.uniform = types.SimpleNamespace(sample=lambda *a, **k: jnp.float32(u))
+    mcmc.uniform = types.SimpleNamespace(sample=lambda lo=0.0, hi=1.0, **k: jnp.float32(lo) + jnp.float32(u) * (jnp.float32(hi) - jnp.float32(lo)))
     mcmc.jnp = JnpProxy(jnp, rec)
     c = {"kind": kind, "model": md, "args": args, "xs": xs, "sel": s, "order": order, "eps": eps,
          "noise": noise, "u": u, "nsteps": nsteps}
@@ -256,10 +258,10 @@ def mh_case(rng):
     try:
         from genjax.state import state
         mcmc.jnp = JnpProxy(jnp, rec)
-        mcmc.uniform = types.SimpleNamespace(sample=lambda *a, **k: jnp.float32(1e-30))
+        mcmc.uniform = types.SimpleNamespace(sample=lambda lo=0.0, hi=1.0, **k: jnp.float32(lo) + jnp.float32(1e-30) * (jnp.float32(hi) - jnp.float32(lo)))
         new, _ = seed(state(lambda: mcmc.mh(tr, build_sel(s))))(key)
         rec.clear()
-        mcmc.uniform = types.SimpleNamespace(sample=lambda *a, **k: jnp.float32(u))
+        mcmc.uniform = types.SimpleNamespace(sample=lambda lo=0.0, hi=1.0, **k: jnp.float32(lo) + jnp.float32(u) * (jnp.float32(hi) - jnp.float32(lo)))
         out, st = seed(state(lambda: mcmc.mh(tr, build_sel(s))))(key)
         eq = lambda a, b: all(bool(jnp.all(x == y)) for x, y in zip(jax.tree_util.tree_leaves(a), jax.tree_util.tree_leaves(b)))  # noqa: E731
         c["accept"] = bool(st["accept"])
